@@ -136,11 +136,13 @@ class FutureBase(object):
         # like to maintain their normal behavior), so these could still leave the scheduler in a
         # bad state if the process continues to run afterwards
         except Exception as e:
-            # safe_repr: an exception whose repr() raises must not escape from here into set_value()/set_error()
-            print(
-                "exception ignored in asynq on_computed callback: %s"
-                % core_helpers.safe_repr(e)
-            )
+            # safe_repr: an exception whose repr() raises must not escape from here into set_value()/set_error();
+            # safe_repr itself raises when what repr() raised cannot be formatted either
+            try:
+                description = core_helpers.safe_repr(e)
+            except Exception:
+                description = "<unprintable %s>" % type(e).__name__
+            print("exception ignored in asynq on_computed callback: %s" % description)
             traceback.print_exc()
 
     def _compute(self):
